@@ -470,6 +470,13 @@ func c18Pool(seed int64) [][]byte {
 	for i := 0; i < 120; i++ {
 		pool = append(pool, workload.W3Doc(seed, uint64(i)))
 	}
+	// record documents: key sets and column values that repeat within a document and between the
+	// documents different goroutines work on (process-wide caches and interning tables fill with these)
+	for i := 0; i < 60; i++ {
+		if d := workload.W11Doc(seed, uint64(i)); len(d) < 20000 {
+			pool = append(pool, d)
+		}
+	}
 	for _, s := range workload.SeedsCached() {
 		if r.Intn(8) == 0 {
 			pool = append(pool, []byte(s))
